@@ -21,6 +21,21 @@ def t_units(tier):
     N = 2 if tier == "quick" else 3
     us, n = tvbase.source_units(sources.SELECTORS, ("x", "y"), "simplify", N, "selector-family", nchunks=16, rtypes={"i_k": "i"},
                                 allowed_exc=())
+    for u in us:
+        u["compile_check"] = True
+    # C02's programs: every simplified output must also unparse and compile (totality / well-formedness)
+    from vlib.skel import families
+    inst = [s for _, s in families.instances(("x", "y"))]
+    for part in tvbase.chunks(inst, 24):
+        us.append(dict(kind="sources", sources=part, transformer="simplify", N=N, label="family", compile_check=True))
+    mp = 10 if tier == "quick" else 12
+    for a in range(3):
+        for b in range(12):
+            us.append(dict(kind="grammar", form="fn", feats=["calllam", "first", "tuple", "dict", "count", "ifexp", "kwlam", "curry", "method", "bool", "nested"], stages=2, depth=2,
+                           maxpicks=mp, fixed=[a, b], schemes=["reuse"], transformer="simplify", N=N, compile_check=True))
+    for i in range(8 if tier == "quick" else 32):
+        us.append(dict(kind="random", seed=report.seed() * 100 + i, count=150 if tier == "quick" else 1000, form=["fn", "mix"][i % 2], feats=None, stages=2, depth=3, maxpicks=24,
+                       scheme="reuse", transformer="simplify", N=N, compile_check=True))
     return us, n
 
 
